@@ -61,8 +61,14 @@ Definition n_rets (w : who) (upto : N) (tr : trace) : N :=
 Definition tunnel_end_stim (e : ev) : bool :=
   match e with
   | Stim StFail _ _ _ | Stim StChClose _ _ _ | Stim StCtxEnd _ _ _ | Stim StStop _ _ _ | Stim StRawEnd _ _ _ => true
+  | Stim StMarshal _ _ _ => true
   | _ => false
   end.
+(* causes that legitimately end a tunnel: an RPC whose metadata cannot be encoded is not one *)
+Definition legit_tunnel_end_stim (e : ev) : bool :=
+  match e with Stim StMarshal _ _ _ => false | _ => tunnel_end_stim e end.
+Definition first_legit_tunnel_end (tr : trace) : option N :=
+  match filter (fun e => legit_tunnel_end_stim (snd e)) tr with [] => None | (a, _) :: _ => Some a end.
 Definition first_tunnel_end (tr : trace) : option N :=
   match filter (fun e => tunnel_end_stim (snd e)) tr with [] => None | (a, _) :: _ => Some a end.
 Definition has_stim (s : stim -> bool) (tr : trace) : bool :=
@@ -82,7 +88,7 @@ Definition deliv_step (s : dstate2) (e : N * ev) : dstate2 :=
       | [] => s
       | (id, k) :: rest => mkD2 (qset (t, d) rest (q2 s)) (log2 s ++ [(act, d, t, id, k)])
       end
-  | Stim StFail t _ _ | Stim StCtxEnd t _ _ => mkD2 (qset (t, C2S) [] (qset (t, S2C) [] (q2 s))) (log2 s)
+  | Stim StFail t _ _ | Stim StCtxEnd t _ _ | Stim StMarshal t _ _ => mkD2 (qset (t, C2S) [] (qset (t, S2C) [] (q2 s))) (log2 s)
   | _ => s
   end.
 Definition deliveries (tr : trace) : list (N * dir * N * Z * fkind) := log2 (fold_left deliv_step tr (mkD2 [] [])).
@@ -241,7 +247,7 @@ Definition mon_C02 (c : cfg) (tr : trace) : list failure :=
 (* ---------- C03 / C04 ---------- *)
 Definition mon_C03 (c : cfg) (tr : trace) : list failure :=
   if c_rawc c || c_raws c then [] else
-  let te := first_tunnel_end tr in
+  let te := first_legit_tunnel_end tr in
   let td := teardown_at tr in
   flat_map (fun e => match e with
      | (a, ChanDone t _) | (a, ServeRet t _ _) | (a, NetSrvRet t _) =>
